@@ -37,6 +37,17 @@ static const char *const HANDLES[] = {"a", "b", "", "Euler 1-D", "x y", "a ", "A
 static const int NHANDLES = 10;
 static const int FRESH_SLOT = 10;
 
+// spelling of a solution name in masa_init: one call in four decorates it the way the library documents as equivalent (case changes, runs of '-' and ' '
+// in front, inside and at the end); the bits come from the op record, so the history stays a pure function of its records
+inline std::string spell_name(const std::string &s, const Op &o) {
+  if ((unsigned)o.n % 4 != 1) return s;
+  uint64_t r = o.v[0] ^ ((uint64_t)(unsigned)o.idx << 32) ^ 0x9e3779b97f4a7c15ull; auto next = [&r]() { r ^= r << 13; r ^= r >> 7; r ^= r << 17; return r; };
+  std::string out; auto run = [&]() { int k = 1 + next() % 3; for (int i = 0; i < k; i++) out += (next() & 1) ? '-' : ' '; };
+  if (next() % 3 == 0) run();
+  for (size_t i = 0; i < s.size(); i++) { char c = s[i]; if (next() % 3 == 0) c = (char)toupper((unsigned char)c); out += c; if (i + 1 < s.size() && next() % 8 == 0) run(); }
+  if (next() % 2 == 0) run();
+  return out; }
+
 struct Failure { std::string prop, msg; int step; };
 
 template <class Scalar> inline bool biteq(Scalar a, Scalar b) { return memcmp(&a, &b, sizeof(Scalar) > 8 ? 10 : 8) == 0; }
@@ -173,9 +184,9 @@ struct History {
     auto selm = [&]() -> SolModel * { return R.has_selected ? &R.handles[R.selected] : nullptr; };
     auto pname = [&](SolModel *m, bool &valid) -> std::string { valid = true; if (!m || m->params.empty() || o.n % 7 == 0) { valid = false; static const char *bad[] = {"", "no_such_parameter", "A_X", "gamma ", " L", "k_00"}; std::string b = bad[(unsigned)o.p % 6]; if (m) for (auto &kv : m->params) if (kv.first == b) b += "_"; return b; } return m->params[(unsigned)o.p % m->params.size()].first; };
     switch (o.code) {
-      case OP_INIT: { std::string h = HANDLES[(unsigned)o.h % NHANDLES]; std::string s = cfg.catalogue[(unsigned)o.s % cfg.catalogue.size()]; trace.back() += " '" + h + "' <- " + s; bool re = R.handles.count(h); if (re) cls["reinit_existing_handle"]++; if (re && R.handles[h].name == s) cls["reinit_same_type"]++;
+      case OP_INIT: { std::string h = HANDLES[(unsigned)o.h % NHANDLES]; std::string s = cfg.catalogue[(unsigned)o.s % cfg.catalogue.size()]; std::string sp = spell_name(s, o); trace.back() += " '" + h + "' <- " + s + (sp != s ? " spelled '" + sp + "'" : ""); if (sp != s) cls["init_decorated_name"]++; bool re = R.handles.count(h); if (re) cls["reinit_existing_handle"]++; if (re && R.handles[h].name == s) cls["reinit_same_type"]++;
           for (auto &kv : R.handles) if (kv.first != h && kv.second.name == s) cls["two_handles_same_type"]++;
-          int rc; { Quiet q; rc = masa_init<Scalar>(h, s); } if (rc != 0) fail("C12", "masa_init returned " + std::to_string(rc));
+          int rc; { Quiet q; rc = masa_init<Scalar>(h, sp); } if (rc != 0) fail("C12", "masa_init returned " + std::to_string(rc));
           R.selected = h; R.has_selected = true; SolModel m = fresh_model<Scalar>(P, s); R.handles[h] = m;
           std::string nm; { Quiet q; masa_get_name<Scalar>(&nm); } if (nm != s) fail("C12", "after masa_init('" + h + "','" + s + "') masa_get_name returns '" + nm + "'"); break; }
       case OP_SELECT: { if (R.handles.empty()) break; auto it = R.handles.begin(); std::advance(it, (unsigned)o.h % R.handles.size()); trace.back() += " '" + it->first + "'"; int rc; { Quiet q; rc = masa_select_mms<Scalar>(it->first); } if (rc != 0) fail("C12", "masa_select_mms returned " + std::to_string(rc)); if (R.selected != it->first) cls["select_other_handle"]++; R.selected = it->first; R.has_selected = true;
@@ -221,7 +232,7 @@ struct History {
   static double ccb(double T) { return 2.5 + T * 1e-4; }
   void step_c(const Op &o) { Registry &R = reg[0]; using namespace MASA; auto selm = [&]() -> SolModel * { return R.has_selected ? &R.handles[R.selected] : nullptr; };
     switch (o.code) {
-      case OP_CINIT: { std::string h = HANDLES[(unsigned)o.h % NHANDLES]; std::string s = cfg.catalogue[(unsigned)o.s % cfg.catalogue.size()]; trace.back() += " '" + h + "' <- " + s; int rc; { Quiet q; rc = ::masa_init(h.c_str(), s.c_str()); } if (rc != 0) fail("C17", "C masa_init returned " + std::to_string(rc));
+      case OP_CINIT: { std::string h = HANDLES[(unsigned)o.h % NHANDLES]; std::string s = cfg.catalogue[(unsigned)o.s % cfg.catalogue.size()]; std::string sp = spell_name(s, o); trace.back() += " '" + h + "' <- " + s + (sp != s ? " spelled '" + sp + "'" : ""); if (sp != s) cls["init_decorated_name"]++; int rc; { Quiet q; rc = ::masa_init(h.c_str(), sp.c_str()); } if (rc != 0) fail("C17", "C masa_init returned " + std::to_string(rc));
           R.selected = h; R.has_selected = true; R.handles[h] = fresh_model<double>(0, s); std::string nm; { Quiet q; masa_get_name<double>(&nm); } if (nm != s) fail("C17", "C masa_init('" + h + "','" + s + "') selected '" + nm + "' in the double registry"); cls["c_init"]++; break; }
       case OP_CSELECT: { if (R.handles.empty()) break; auto it = R.handles.begin(); std::advance(it, (unsigned)o.h % R.handles.size()); int rc; { Quiet q; rc = ::masa_select_mms(it->first.c_str()); } R.selected = it->first; R.has_selected = true; std::string nm; { Quiet q; masa_get_name<double>(&nm); } if (nm != it->second.name || rc != 0) fail("C17", "C masa_select_mms('" + it->first + "') did not select that handle of the double registry"); break; }
       case OP_CSET: { SolModel *m = selm(); if (!m || m->params.empty()) break; bool valid = o.n % 7 != 0; std::string n = valid ? m->params[(unsigned)o.p % m->params.size()].first : "no_such_parameter"; double v = decode_value<double>(o.v[0]); { Quiet q; ::masa_set_param(n.c_str(), v); } if (valid) for (auto &kv : m->params) if (kv.first == n) kv.second = v; cls["c_set"]++;
